@@ -1,6 +1,10 @@
-"""C17 — deductive part: small functions under contract (vf/proofs/small.py); everything else is decided by the bounded stand-in."""
+"""C17 — deductive part: small functions under contract (vf/proofs/small.py) and the source reported for the variables of a Python
+factor (vf/proofs/c17_vars.py); everything else is decided by the bounded stand-in."""
 from vf.proofs.small import run_small
 
 
 def run_proofs(ctx):
     run_small(ctx, "C17")
+    from vf.proofs.c17_vars import run_proofs as vars_proofs
+
+    vars_proofs(ctx)
